@@ -156,6 +156,10 @@ func c12Judge(sc *Scenario, st *engine.Stats, res *engine.JobResult) {
 		c12Canon[sc.Name] = canon
 	}
 	for obs, n := range st.Outcomes {
+		if strings.Contains(obs, lateWrite) {
+			res.Violate(sc.Family+":write-after-return", fmt.Sprintf("scenario %s: %d execution(s): %.400s", sc.Name, n, obs), schedCase{Scenario: *sc, Trace: st.FirstTrace[obs], Obs: obs})
+			continue
+		}
 		if obs == canon {
 			continue
 		}
@@ -208,6 +212,21 @@ func c12BigScenarios() []Scenario {
 	return sc
 }
 
+// c12WriteVisible: the 2-record scenarios again with every Write to the output as a scheduling point.
+func c12WriteVisible(mode string) []Scenario {
+	var out []Scenario
+	for _, s := range c12Scenarios(2, 2) {
+		if s.Call.Cmd == "topa" || s.Family == "topranking-push" {
+			continue // topa writes to os.Stdout / files, not to the writer the harness passes in; push14 is delay-bounded only
+		}
+		s.Name += "/writes-visible"
+		s.WriteVisible = true
+		s.Mode = mode
+		out = append(out, s)
+	}
+	return out
+}
+
 func c12All(tier string) []Scenario {
 	var sc []Scenario
 	with := func(ss []Scenario, mode func(s *Scenario) string) {
@@ -228,6 +247,7 @@ func c12All(tier string) []Scenario {
 		})
 		with(c12Scenarios(2, 1), func(s *Scenario) string { return "U" })
 		with(c12CSVScenarios(2), func(s *Scenario) string { return "U" })
+		sc = append(sc, c12WriteVisible("P1M1")...)
 		sc = append(sc, c12BigScenarios()...)
 		// four records: enough for two records to overtake a third (delay-bounded: a delayed goroutine
 		// stays delayed for as long as the others can run)
@@ -242,6 +262,7 @@ func c12All(tier string) []Scenario {
 	})
 	with(c12Scenarios(2, 1), func(s *Scenario) string { return "U" })
 	with(c12CSVScenarios(2), func(s *Scenario) string { return "U" })
+	sc = append(sc, c12WriteVisible("P2M1")...)
 	with(c12BigScenarios(), func(s *Scenario) string { return "D2M1" })
 	with(c12Scenarios(4, 2), func(s *Scenario) string { return "D2M1" })
 	with(c12Scenarios(3, 2), func(s *Scenario) string { return "P2M2" })
